@@ -171,6 +171,9 @@ def build(case, rng=None):
 
     if case.get("entry") is not None:
         m.entry_point = bu.blocks[case["entry"]]
+    if case.get("safeseh"):
+        m.aux_data["peSafeExceptionHandlers"] = gtirb.AuxData(
+            {bu.blocks[b] for b in case["safeseh"]}, "set<UUID>")
 
     build_cfg(case, lst, bu)
     return bu, lst
@@ -226,10 +229,16 @@ def expected_edges(lst, labels):
                 edges.add((si, t.pos, "call", False, True, tgt))
                 calls.append((si, t, nxt_code.pos if nxt_code else None,
                               tgt))
-            elif t.kind == "ijmp":
-                edges.add((si, t.pos, "branch", False, False, ("anon",)))
-            elif t.kind == "icall":
-                edges.add((si, t.pos, "call", False, False, ("anon",)))
+            elif t.kind in ("ijmp", "icall"):
+                et = "branch" if t.kind == "ijmp" else "call"
+                if t.target is not None:
+                    # through memory named by a symbol: the edge leads to
+                    # that symbol's referent, marked indirect
+                    edges.add((si, t.pos, et, False, False,
+                               resolve(t.target)))
+                    edge_label[(si, t.pos, et)] = t.target
+                else:
+                    edges.add((si, t.pos, et, False, False, ("anon",)))
     # return edges
     sites_by_fn = {}
     for si, t, site, tgt in calls:
